@@ -396,6 +396,11 @@ def impl(case):
     return "ok " + canon(res, d["binary"], root_slot)
 
 
+def worker_impl(d):
+    """executed in a worker interpreter (props/_twoproc.py): the outcome line of one case"""
+    return impl(Case("", d, ()))
+
+
 # ---------------------------------------------------------------- oracle (model-free)
 def oracle(case):
     from bigtree.utils.exceptions import NotFoundError
@@ -420,6 +425,13 @@ def oracle(case):
             msgs.append(f"expected {d['expect']}, call returned a tree")
         elif not isinstance(err, want):
             msgs.append(f"expected {d['expect']}, got {type(err).__name__}")
+        if not msgs:
+            # "reported as an error rather than ignored" is not one of the optional type/loop checks: the same call in
+            # an interpreter started with BIGTREE_CONF_ASSERTIONS="" must be refused in the same way
+            from props import _twoproc
+            off = _twoproc.call("off", "props.C14:worker_impl", d)
+            if off != d["expect"]:
+                msgs.append(f"with BIGTREE_CONF_ASSERTIONS switched off the call is no longer refused with {d['expect']}: {off[:120]}")
         return msgs
     if err is not None:
         msgs.append(f"valid call raised {type(err).__name__}: {err}")
